@@ -85,22 +85,43 @@ def r1(R1, cfg, F, hr):
     ok = len(nd) == 1 and len(ns) >= 1
     why = 'shape'
     if ok:
-        # switch on the associated const
-        sw_c = [bb for bb, t in b.terms() if t['k'] == 'switch' and not b.blocks[bb]['cleanup'] and
-                any(d[0] == 'stmt' and d[3]['rv']['k'] == 'use' and d[3]['rv']['op'].get('uneval') == 'asset::Storable::HOT_RELOADED'
-                    for d in (b.defs_of(t['discr']['place']['l']) if t['discr']['k'] in ('copy', 'move') else []))]
-        mc = [x for x in b.calls() if common.user_call_kind(x) == 'indirect' and b.origins(x.args[0]) == {('arg', 3)}]
-        sw_m = [bb for bb, t in b.terms() if t['k'] == 'switch' and mc and b.access_path(t['discr']) == ['call@bb%d' % mc[0].bb]]
-        ok = len(sw_c) == 1 and len(mc) == 1 and len(sw_m) == 1
-        why = 'the two conditions (HOT_RELOADED, _mutable()) are not both tested'
+        # (guard set of the new_dynamic call) it runs only when the associated const HOT_RELOADED is true AND _mutable()
+        # returned true -- whether tested one after the other, or combined with `&&` into a local that is matched on
+        def cond_kind(ap):
+            if ap and len(ap) == 1 and ap[0].startswith('call@bb'):
+                site = [x for x in b.calls() if 'call@bb%d' % x.bb == ap[0]]
+                if site and common.user_call_kind(site[0]) == 'indirect' and b.origins(site[0].args[0]) == {('arg', 3)}:
+                    return '_mutable()'
+            if ap and len(ap) == 1 and ap[0].startswith('const:') and 'HOT_RELOADED' in ap[0]:
+                return 'T::HOT_RELOADED'
+            return None
+        found = set()
+        for sw, tgt, lab, tst in common.guards_of(b, nd[0].bb):
+            if tst[0] != 'val' or lab == 'sw:0':
+                continue
+            ap = tst[1]
+            k = cond_kind(ap)
+            if k:
+                found.add(k)
+                continue
+            # a local that holds `A && B`: its definitions are the constant false and the other condition(s)
+            t = b.blocks[sw]['term']
+            l = t['discr']['place']['l'] if t['discr']['k'] in ('copy', 'move') and not t['discr']['place']['p'] else None
+            for d in (b.defs_of(l) if l is not None else []):
+                if d[0] == 'call':
+                    k = cond_kind(['call@bb%d' % d[1]])
+                    if k:
+                        found.add(k)
+                elif d[0] == 'stmt' and d[3]['rv']['k'] == 'use':
+                    k = cond_kind(b.access_path(d[3]['rv']['op']))
+                    if k:
+                        found.add(k)
+        ok = found == {'T::HOT_RELOADED', '_mutable()'}
+        why = 'the two conditions (HOT_RELOADED, _mutable()) are not both required (found %s)' % sorted(found)
         if ok:
-            for sw, nm in ((sw_c[0], 'T::HOT_RELOADED'), (sw_m[0], '_mutable()')):
-                true = [d for d, lab in b.edges(sw) if lab != 'sw:0']
-                if len(true) != 1 or nd[0].bb in b.reachable([0], removed_edges=[(sw, true[0])]):
-                    ok = False
-                    why = 'new_dynamic is reachable although %s is false' % nm
             # value and id are passed through unchanged
-            ok = ok and [b.access_path(a) for a in nd[0].args] == [['arg2'], ['arg1']]
+            ok = [b.access_path(a) for a in nd[0].args] == [['arg2'], ['arg1']]
+            why = 'new_dynamic does not receive (id, value) unchanged'
     R1.check(ok, cfg, b.path, 'dynamic-iff-HOT_RELOADED-and-mutable', 'CacheEntry::new: %s' % why, nd[0].loc() if nd else b.loc())
     # the _mutable closures: get_or_insert passes has_reloader, loads pass cache.is_hot_reloaded
     for p, want in (('anycache::CacheExt::add_any::{closure#0}', '_has_reloader'), ('key::Inner::of_asset::load_entry::{closure#0}', 'is_hot_reloaded')):
